@@ -215,11 +215,16 @@ fn field_decl(f: &Field, idx: usize, with_attr: bool, force_pub: bool) -> String
     if with_attr {
         // other attributes (doc comment = name-value attribute, allow = list attribute) may precede
         // the marker, and may sit on fields that are NOT marked
+        // ... or follow it, or surround it: the marker counts wherever it stands in the attribute list
+        let marker = if f.marked { "    #[animate]\n" } else { "" };
         if f.decorated {
-            s += &format!("    /// field {idx}\n    #[allow(dead_code)]\n");
-        }
-        if f.marked {
-            s += "    #[animate]\n";
+            match idx % 3 {
+                0 => s += &format!("    /// field {idx}\n    #[allow(dead_code)]\n{marker}"),
+                1 => s += &format!("{marker}    /// field {idx}\n    #[allow(dead_code)]\n"),
+                _ => s += &format!("    /// field {idx}\n{marker}    #[allow(dead_code)]\n"),
+            }
+        } else {
+            s += marker;
         }
     }
     s += &format!("    {}x{idx}: {},\n", if force_pub { "pub " } else { f.vis.text() }, f.ty.name());
@@ -623,7 +628,7 @@ fn shrink(sh: Shape, detail: String) -> (Shape, String) {
 }
 
 pub fn c17(run: &mut Run) {
-    run.assume("struct family: 1-6 fields of f32/f64/u8/i16/i32/u32, any #[animate] subset (none = all), field and struct visibility priv/pub/pub(crate), optional doc comment + attribute before the marker, local or remote proxy with the target imported as in the documentation; easings without the Back family (documented Lerp range panic)");
+    run.assume("struct family: 1-6 fields of f32/f64/u8/i16/i32/u32, any #[animate] subset (none = all), field and struct visibility priv/pub/pub(crate), optional doc comment + attribute before, after or around the marker, local or remote proxy with the target imported as in the documentation; easings without the Back family (documented Lerp range panic)");
     if let mv_engine::Mode::Replay { case, .. } = &run.mode {
         if let Ok(c) = serde_json::from_value::<Shape>(case.clone()) {
             for o in run_batch(&[c], "c17-replay", 0) {
